@@ -122,8 +122,8 @@ def r031(ctx, rid):
         site = ctx.site(fnp)
         r.check('State::collect_header:rowcount', len(rows) == 3, site, built=len(rows), expected=3)
         S0 = '~ ' + CC + 'State::Start(_)'
-        z = [x for x in find_path(rows, S0) if ('(header.body_size == 0)', True) in x.conds]
-        nz = [x for x in find_path(rows, S0) if ('(header.body_size == 0)', False) in x.conds]
+        z = [x for x in find_path(rows, S0) if ('(0 == header.body_size)', True) in x.conds]
+        nz = [x for x in find_path(rows, S0) if ('(0 == header.body_size)', False) in x.conds]
         b = find_path(rows, '~ ' + CC + 'State::Body(_, _, _)')
         new0 = '%sContentType::new(channel_id, self.Start.0, std::vec::Vec::new(), header.properties)' % CC
         if r.check('State::collect_header:rows', len(z) == 1 and len(nz) == 1 and len(b) == 1, site, built=[x.row() for x in rows]):
